@@ -899,6 +899,7 @@ type MarshalTextCode struct {
 	fieldQuery         *FieldQuery
 	isAddrForMarshaler bool
 	isNilableType      bool
+	isMapKey           bool
 }
 
 func (c *MarshalTextCode) Kind() CodeKind {
@@ -916,6 +917,9 @@ func (c *MarshalTextCode) ToOpcode(ctx *compileContext) Opcodes {
 	} else {
 		code.Flags &= ^IsNilableTypeFlags
 	}
+	if c.isMapKey {
+		code.Flags |= MapKeyFlags
+	}
 	ctx.incIndex()
 	return Opcodes{code}
 }
@@ -926,6 +930,7 @@ func (c *MarshalTextCode) Filter(query *FieldQuery) Code {
 		fieldQuery:         query,
 		isAddrForMarshaler: c.isAddrForMarshaler,
 		isNilableType:      c.isNilableType,
+		isMapKey:           c.isMapKey,
 	}
 }
 
